@@ -221,6 +221,28 @@ def check(case):
     return {"nontrivial": bool(cpts) and int(above.sum()) >= 2, "classes": classes}
 
 
+# ------------------------------------------------------------------ default settings on realistic series
+
+
+def default_cells(tier):
+    """The detector with its DEFAULT hyper-parameters (optionally one of them changed) on realistic series of 100-400 samples
+    (strategies.data.realistic_series; deterministic function of the stored seed)."""
+    base = {"change_score": None, "threshold_scale": 2.0, "level": 1e-8, "min_segment_length": 5, "max_interval_length": 200, "growth_factor": 1.5}
+    variants = ({}, {"threshold_scale": None, "level": 0.01}, {"threshold_scale": 1.0}, {"max_interval_length": 100}, {"growth_factor": 2.0},
+                {"change_score": {"cls": "GaussianVarCost"}})
+    for seed in range(8 if tier == "quick" else 24):
+        for n in ((100, 260) if tier == "quick" else (100, 180, 260, 400)):
+            for v in variants[: 2 if tier == "quick" else 6]:
+                yield {"seed": 22000 + seed, "n": n + seed, "p": 1 + seed % 2, "params": dict(base, **v)}
+
+
+def check_default(case):
+    X, kind = D.realistic_series(case["seed"], case["n"], case["p"])
+    info = check({"params": case["params"], "X": X, "scale2": 1.5, "n_train": None, "history": None})
+    info["classes"] = list(info["classes"]) + [f"data={kind}"]
+    return info
+
+
 # ------------------------------------------------------------------ very long series
 
 
@@ -303,6 +325,11 @@ FACETS = [
                 "Table/Function change scores (ties, negative and multi-column values); detector optionally fitted on other data (shorter / longer / the same buffer refilled afterwards) and optionally with a past (scorer pre-fitted on wider data; earlier predict on the caller's array / frame, then refilled in place); "
                 "non-trivial = >=1 changepoint and >=2 intervals above the threshold"),
           n_quick=800, n_thorough=12000, shards_quick=8, shards_thorough=16),
+    Facet(name="default_settings", kind="enumerate", enumerate=default_cells, check=check_default, exhaustive=True, time_limit=300,
+          rule=("SeededBinarySegmentation with its default hyper-parameters (CUSUM, msl 5, max_interval_length 200, growth 1.5, scale 2; variants: tuned "
+                "threshold, scale 1, max_interval_length 100, growth 2, GaussianVar cost) on realistic series of 100-400 samples (seeded); same per-interval "
+                "and greedy models; 32 cells (thorough: 576), non-trivial = >=1 changepoint and >=2 intervals above the threshold"),
+          shards_quick=16, shards_thorough=16, max_samples=1),
     Facet(name="long_series", kind="enumerate", enumerate=long_cells, check=check_long, exhaustive=True, time_limit=900,
           rule=("series of 3.4 million samples (thorough: up to 5 million, p up to 2) with max_interval_length = n (candidates of millions of "
                 "samples; min_segment_length 50000 -> a few hundred candidates, thorough also 5 -> 1.3 million): all scores finite, the 12 longest and 300 sampled candidates compared with the maximum over all "
